@@ -77,7 +77,21 @@ type oracleResult struct {
 	Detail    string `json:"detail,omitempty"`
 }
 
+// inflight records the input about to be handed to the code under test, so that a crash of the whole harness process
+// (a fatal stack overflow cannot be recovered) still leaves the failing input behind; removed on normal completion.
+var inflightDir string
+
+func inflight(v interface{}) {
+	if inflightDir == "" {
+		return
+	}
+	if b, err := json.Marshal(v); err == nil {
+		_ = os.WriteFile(filepath.Join(inflightDir, "inflight.json"), b, 0o644)
+	}
+}
+
 func writeSummary(dir string, s *summary) error {
+	_ = os.Remove(filepath.Join(dir, "inflight.json"))
 	b, err := json.MarshalIndent(s, "", " ")
 	if err != nil {
 		return err
